@@ -16,3 +16,67 @@ def register(add):
         "frame classes; CPython asyncio.",
         "DESIGN.md 3/C03",
     )
+
+
+def _more(add):
+    add(
+        "C02",
+        "exploration",
+        "differential runtime monitor: real streaming receiver vs independent reference decoder over enumerated and mutated byte streams x read chunkings; tracemalloc memory probe",
+        "The real data_received() is fed every stream up to a length bound over a reserved-byte-rich alphabet, "
+        "every short sequence of whole frames / fragments / control bytes and seeded mutated frame "
+        "concatenations, each under all 2^(n-1) chunkings (short) or whole/byte-wise/random chunkings (long); "
+        "upward events and (ACK|NAK, ackNum) written back must equal the reference decoder's, nothing may raise, "
+        "and >= 8 MiB of flag-free garbage must leave the retained buffer and traced memory bounded and the "
+        "receiver able to decode the next frame.  Held on what was enumerated/sampled; says nothing about streams "
+        "beyond the bounds.",
+        "Trusted: rtmon/ashref.RefDecoder as a reading of UG101; latitude: DATA fields 0..256 accepted, ACK/NAK "
+        "with a data field skipped, equivalence claimed below the receive-buffer bound only.",
+        "DESIGN.md 3/C02",
+    )
+    add(
+        "C04",
+        "exploration",
+        "online per-frame monitor: real receive path vs the specification's receive rule, exhaustive short frame sequences from all 8 states plus long random walks",
+        "Well-formed frames (reference-encoded) are fed one per callback; after each, what the host handed up and "
+        "wrote back during that call is compared with the receive rule (deliver iff frmNum is the expected one; "
+        "one ACK/NAK with the next expected number; RSTACK restarts numbering and reports its code; ERROR reports "
+        "its code; ACK/NAK/RST nothing upward).  Exhaustive over all sequences of the tier's length from each "
+        "expected-number state, plus random walks with >= 1000 wraps, half of them with a host send pending.",
+        "Trusted: rtmon/ashref codec (validated against the tree by C03) and receive rule.",
+        "DESIGN.md 3/C04",
+    )
+    add(
+        "C05",
+        "fault_enumeration",
+        "trace-specification monitor over timestamped wire trace in virtual time; per-attempt peer reactions enumerated incl. events placed exactly on the ACK-timeout instant (before/after the timer)",
+        "Real AshProtocol on a deterministic virtual-time loop against a scripted peer.  Every script of "
+        "per-attempt reactions {covering ACK, stale ACK, NAK, covering NAK, piggy-backed ack, silence, ERROR, "
+        "RSTACK} x delay classes is enumerated to the tier's depth (thorough: complete for one send), plus "
+        "seeded multi-send queues, sends after failure and recovery after RSTACK.  The offline oracle checks "
+        "attempt budget, same number/payload, reTx flag, retry gap (0 on NAK else within [0.4,3.2] s), outcome "
+        "vs covering ack, one notification per failure with reason, silence until RSTACK, one outstanding frame, "
+        "consecutive numbering, and that no send hangs (loop run-dry = violation).",
+        "Trusted: CPython asyncio ordering (schedule model DESIGN 2.1), reference codec; constants 0.4/3.2 s and "
+        "0x51 from UG101; the attempt budget is read from the tree.",
+        "DESIGN.md 3/C05",
+    )
+    add(
+        "C18",
+        "exploration",
+        "exhaustive postcondition check of the status conversion + the same postcondition as an icontract at live call sites",
+        "All 256 values of each legacy status family (defined and undefined), every unified status and seeded "
+        "undefined 32-bit values are converted and judged against a numeric table taken from the SDK headers: "
+        "never raises, unified unchanged, OK iff family success code, steering codes map to their counterparts. "
+        "Exhaustive over the 8-bit families.",
+        "Trusted: numeric constants in rtmon/contracts.py.",
+        "DESIGN.md 3/C18",
+    )
+
+
+_old_register = register
+
+
+def register(add):  # noqa: F811
+    _old_register(add)
+    _more(add)
